@@ -23,5 +23,8 @@ var Reader = rand.Reader
 
 // Read implements io.Reader.Read.
 func Read(b []byte) (int, error) {
+	if n, err, ok := verifRead(b); ok {
+		return n, err
+	}
 	return rand.Read(b)
 }
